@@ -31,7 +31,7 @@ let f32_class c = if c >= 4 then c - 1 else c     (* mode u: -0 (3) and +0 (4) a
 let eq_of = function
   | "e" | "g" | "y" | "z" | "a" | "r" -> (fun (a : int) b -> a = b)
   | "u" -> (fun a b -> a <> 0 && b <> 0 && f32_class a = f32_class b)
-  | "k" -> (fun a b -> key a = key b)
+  | "k" | "K" | "Q" -> (fun a b -> key a = key b)     (* K, Q: LCSFunc on structs / pointers, key equality *)
   | "c" -> (fun a b -> key a / 2 = key b / 2)
   | "m" -> (fun a b -> key a mod 2 = key b mod 2)
   | "o" -> (fun a b -> key a <= key b)
@@ -39,13 +39,13 @@ let eq_of = function
   | m -> failwith ("bad eq mode " ^ m)
 
 (* is the test an equivalence (then the symmetric statement of the property applies too)? *)
-let is_equivalence = function "e" | "g" | "k" | "c" | "m" | "y" | "z" | "a" | "r" -> true | _ -> false
+let is_equivalence = function "e" | "g" | "k" | "K" | "Q" | "c" | "m" | "y" | "z" | "a" | "r" -> true | _ -> false
 
 let cmp_int mode : int -> int -> int =
   match mode with
     | "n" | "b" | "h" | "f" | "s" | "g" | "j" | "y" | "w" -> (fun (a : int) b -> compare a b)   (* typed modes: codes in value order *)
     | "u" -> (fun a b -> compare (f32_class a) (f32_class b))
-    | "k" -> (fun a b -> compare (key a) (key b))
+    | "k" | "K" | "Q" -> (fun a b -> compare (key a) (key b))
     | "r" -> (fun a b -> compare (key b) (key a))
     | "d" -> (fun a b -> key a - key b)
     | "t" -> (fun a b -> 3 * (key a - key b))
@@ -115,6 +115,17 @@ let () =
     end) Sys.argv
 let echo_of inp = match Hashtbl.find_opt echo inp with Some o -> o | None -> "NOT-REPLAYED"
 let model_fits la lb = min la lb <= 65 && max la lb <= 130
+
+(* ints_of with the two abbreviations of round 5 for long inputs: "v*n" (n times v), "a~b" (a .. b) *)
+let ints_of5 s =
+  if not (String.contains s '*' || String.contains s '~') then ints_of s else
+  List.concat_map (fun p ->
+    match String.split_on_char '*' p, String.split_on_char '~' p with
+    | [v; n], _ -> let v = int_of_string v and n = int_of_string n in
+      if n < 0 || n > 131072 then failwith "bad int" else List.init n (fun _ -> v)
+    | _, [a; b] -> let a = int_of_string a and b = int_of_string b in
+      if b - a > 131072 then failwith "bad int" else List.init (max 0 (b - a + 1)) (fun i -> a + i)
+    | _ -> [int_of_string p]) (String.split_on_char ',' s)
 
 let fnv64 s =
   let h = ref 0xcbf29ce484222325L in
@@ -209,7 +220,7 @@ let rec eval inp =
      | Some (a, b) -> if kind = "T" && not (model_fits (List.length a) (List.length b)) then echo_of inp else lcs_line mode a b
      | None -> "?")
   | (("L" | "S") as kind) :: mode :: a :: b :: _ ->
-    let a = ints_of a and b = ints_of b in
+    let a = ints_of5 a and b = ints_of5 b in
     if kind = "S" && not (model_fits (List.length a) (List.length b)) then echo_of inp else
     (match M.lcs_func (eq_of mode) a b with
      | Some s -> (if M.lcs_is_nil a b then "z " else "s ") ^ str_ints s ^ " m0 a0"
@@ -290,7 +301,7 @@ let rec spec prop inp out =
      | Some (a, b) -> if out = "?" then Some "bounds that fit the array were rejected" else spec prop (String.concat " " ["L"; mode; str_ints a; str_ints b]) out
      | None -> None)
   | "L" :: mode :: a :: b :: _ ->
-    let a = ints_of a and b = ints_of b in
+    let a = ints_of5 a and b = ints_of5 b in
     (match words out with
      | [_; s; m; _al] ->
        let s = ints_of s in
